@@ -11,7 +11,11 @@ import sys
 import time
 
 VERIF = os.path.dirname(os.path.dirname(os.path.abspath(__file__)))
-EVIDENCE = os.path.join(VERIF, "evidence")
+# /verif/evidence holds what the checks observed on /repo itself. Runs against another tree (VERIF_REPO: scratch
+# worktrees used for seeded or semantics-preserving changes) or with VERIF_EVIDENCE_DIR set (tools/seeded.py, which
+# patches /repo temporarily) write their evidence elsewhere.
+EVIDENCE = os.environ.get("VERIF_EVIDENCE_DIR") or (
+    os.path.join(VERIF, ".build", "evidence-scratch") if os.environ.get("VERIF_REPO") else os.path.join(VERIF, "evidence"))
 REPLAYS = os.path.join(VERIF, "replays")
 KNOWN = os.path.join(VERIF, "known_findings.txt")
 WORK = os.path.join(VERIF, ".build", "work")
